@@ -59,7 +59,34 @@ func r6() any {
 	return m
 }
 
+// 7: whole-struct store, the reader takes the field address of the global (FieldAddr.X)
+type T7 struct{ f, h string }
+
+func source_7() T7    { return T7{f: "t"} }
+func sink_7(x string) {}
+
+var G7 T7
+
+func w7(s T7)    { G7 = s }
+func r7() string { return G7.f }
+
+// 8: the reader returns the address of a field of the global
+func source_8() T7 { return T7{f: "t"} }
+func sink_8(x any) {}
+
+var G8 T7
+
+func w8(s T7) { G8 = s }
+func r8() any {
+	p := &G8.f
+	return p
+}
+
 func main() {
+	w7(source_7())
+	sink_7(r7())
+	w8(source_8())
+	sink_8(r8())
 	w1(source_1())
 	sink_1(r1())
 	w2(source_2())
